@@ -8,7 +8,7 @@ from btclib.tx.tx import Tx
 from btclib.tx.tx_in import TxIn
 from btclib.tx.tx_out import TxOut
 from contracts.c_tx import small, tx_sane, valid
-from pyvc.api import assume, contract, lemma
+from pyvc.api import assume, contract, lemma, shape
 from spec import sighash as spec
 
 
@@ -258,3 +258,24 @@ class PsbtDigestsBounded:
                 code = b"\x76\xa9\x14" + prevouts[i].script_pub_key.script[2:] + b"\x88\xac"
                 want.append(spec.bip143(code, tx, i, hash_type or 1, prevouts[i].value))
         return same_tx and direct == want and streamed == want
+
+
+@shape("btclib.script.witness.Witness#upto3", fields=dict(stack="oneof[tuple[]|tuple[bytes]|tuple[bytes,bytes]|tuple[bytes,bytes,bytes]]"))
+class WitnessUpTo3:
+    def build(stack):
+        return Witness(stack, check_validity=False)
+
+
+@contract("btclib.script.engine.taproot_get_annex", types=dict(witness="obj:Witness#upto3"), props="C08 C09")
+class EngineGetAnnex:
+    """BIP341: the annex is the last element of a stack of at least two whose first byte is 0x50
+    (an empty element has none); the rest is the stack without it, the witness untouched"""
+
+    def post_bip341(witness, result):
+        st = witness.stack
+        n = len(st)
+        has = n >= 2 and len(st[n - 1]) >= 1 and st[n - 1][0] == 0x50
+        annex, rest = result
+        if has:
+            return annex == st[n - 1] and len(rest) == n - 1 and all(rest[i] == st[i] for i in range(n - 1))
+        return annex == b"" and len(rest) == n and all(rest[i] == st[i] for i in range(n))
